@@ -368,17 +368,22 @@ def _build_disk(u, fmt, path, order, cur=None):
     return cur
 
 
-def _build_big(u, fmt, path):
-    """Large histories: BranchBuilder (memory tree, ASCII names) straight into a disk repository."""
-    from breezy import branchbuilder, transport as _t
+def _build_big(u, fmt, path, order=None):
+    """Large histories: BranchBuilder (memory tree, ASCII names) straight into a disk repository.
+    `order`: the revisions to build now (late revisions are built in a second call on the same path)."""
+    from breezy import branch as _b, branchbuilder, transport as _t
     g = u["g"]
     n = len(g)
-    os.makedirs(path, exist_ok=True)
-    bb = branchbuilder.BranchBuilder(_t.get_transport(path), format=fmt)
+    if os.path.exists(os.path.join(path, ".bzr")):
+        bb = branchbuilder.BranchBuilder(branch=_b.Branch.open(path))
+    else:
+        os.makedirs(path, exist_ok=True)
+        bb = branchbuilder.BranchBuilder(_t.get_transport(path), format=fmt)
     br = bb.get_branch()
-    for i, ps in enumerate(g):
+    for i in (range(n) if order is None else order):
+        ps = g[i]
         pids = [rid(p) for p in ps]
-        if (not ps) or ps[0] >= n:
+        if fresh_root(u, i):
             acts = [("add", ("", ROOT, "directory", None)), ("add", ("f", b"f-id", "file", b"0\n"))]
         else:
             body = b"%d\n" % i
@@ -388,7 +393,7 @@ def _build_big(u, fmt, path):
             acts = [("modify", ("f", body))]
         if ps:
             with br.lock_write():
-                if ps[0] >= n:
+                if fresh_root(u, i):
                     br.set_last_revision_info(0, b"null:")
                 else:
                     br.set_last_revision_info(_lh_len(g, ps[0]), pids[0])
@@ -406,8 +411,13 @@ def source(u, fmt):
     final = os.path.join(base, "final")
     n = len(u["g"])
     if u.get("big"):
-        _build_big(u, fmt, final)
+        late = set(u["late"])
+        _build_big(u, fmt, final, [i for i in range(n) if i not in late])
         p1 = final
+        if late:
+            p1 = os.path.join(base, "phase1")
+            shutil.copytree(final, p1, symlinks=True)
+            _build_big(u, fmt, final, sorted(late))
     elif u.get("gdef"):
         uo = origin_universe(u)
         origin = os.path.join(base, "origin")
